@@ -37,6 +37,21 @@ func errSwitch(fn *ssa.Function, m Matcher) (map[string]string, ssa.Value, int) 
 			if len(b.Instrs) == 0 {
 				return "?"
 			}
+			// an arm that performs a fallible action and checks its outcome (`if err := f(); err != nil
+			// { return err }; …; return nil`) is classified by that action, like `return f()`
+			for _, in := range b.Instrs {
+				ci, ok := in.(*ssa.Call)
+				if !ok {
+					continue
+				}
+				ev := ErrResult(ci)
+				if ev == nil || len(NilEdges(fn, FlowSet(ev))) == 0 {
+					continue
+				}
+				if o := CalleeObj(ci.Common()); o != nil {
+					return "call:" + o.Name()
+				}
+			}
 			switch t := b.Instrs[len(b.Instrs)-1].(type) {
 			case *ssa.Return:
 				rv := RetVal(t, ei)
